@@ -591,7 +591,15 @@ DOMNode* DOMDocumentImpl::replaceChild(DOMNode *newChild, DOMNode *oldChild) {
 
         if((oldChild->getNodeType() == DOMNode::DOCUMENT_TYPE_NODE)
         || (oldChild->getNodeType() == DOMNode::ELEMENT_NODE))
-            return fParent.removeChild(oldChild);
+        {
+            DOMNode* removed = fParent.removeChild(oldChild);
+            // replaceChild(x, x): insertBefore cached x again, but x has just left the document
+            if (fDocElement == removed)
+                fDocElement = 0;
+            if (fDocType == removed)
+                fDocType = 0;
+            return removed;
+        }
         else
             return removeChild(oldChild);
     }
